@@ -774,12 +774,9 @@ protected:
             ++i;
         }
 
-        if(outsideCDATA == true)
-        {
-            m_writer.write(
-                m_constants.s_cdataOpenString,
-                m_constants.s_cdataOpenStringLength);
-        }
+        // If the text ends outside of a CDATA section (its last character
+        // was written as a character reference), there is nothing to
+        // re-open: writeCDATA() only closes a section that is still open.
     }
 
 
